@@ -199,6 +199,9 @@ package engine
 //@   ensures [C01] comments-never-take-part-in-a-match: rtype(v) == global("github.com/uber-go/gopatch/internal/goast.CommentGroupPtrType") ==> m == global("github.com/uber-go/gopatch/internal/engine.successMatcher")
 //@   ensures [C01] object-links-never-take-part-in-a-match: rtype(v) == global("github.com/uber-go/gopatch/internal/goast.ObjectPtrType") ==> m == global("github.com/uber-go/gopatch/internal/engine.successMatcher")
 //@   ensures [C01,C02] positions-are-compared-by-validity: rtype(v) == global("github.com/uber-go/gopatch/internal/goast.PosType") ==> m == boxed(mk("github.com/uber-go/gopatch/internal/engine.PosMatcher", c.fset, rvIface(v).val))
+//@   ensures [C01,C02,C06] a-value-of-any-other-type-is-compiled-structurally-by-its-kind: rtype(v) != gt("IdentPtrType") && rtype(v) != gt("StmtSliceType") && rtype(v) != gt("ExprSliceType") && rtype(v) != gt("FieldPtrSliceType") && rtype(v) != gt("ForStmtPtrType") && rtype(v) != gt("CommentGroupPtrType") && rtype(v) != gt("ObjectPtrType") && rtype(v) != gt("PosType") ==> m == ret("(*engine.matcherCompiler).compileGeneric", 0)
+//@   ensures [C01,C02] identifiers-may-be-metavariables: rtype(v) == gt("IdentPtrType") ==> m == ret("(*engine.matcherCompiler).compileIdent", 0)
+//@   ensures [C04] a-for-statement-may-be-the-for-elision: rtype(v) == gt("ForStmtPtrType") ==> m == ret("(*engine.matcherCompiler).compileForStmt", 0)
 //@   ensures-assumed c.meta == nil ==> m == compiledM(c.fset, v, c.patchStart, c.patchEnd)
 //@   ensures-assumed [C02] c.meta == nil ==> forall w RV, rr S_engine_Region {MatchOK(m, w, emptyMap(), rr)} :: MatchOK(m, w, emptyMap(), rr) == EqTree(v, w)
 // The dispatcher of the '+' side (Level 2, C03): an absent pointer is regenerated as the zero value of its
@@ -220,6 +223,8 @@ package engine
 //@   ensures [C03,C17] pattern-comments-are-not-generated: !(kind(v) == 22 && risnil(v)) && rtype(v) == gt("CommentGroupPtrType") ==> m == boxed(mk("github.com/uber-go/gopatch/internal/engine.ValueReplacer", rvOf(boxed(as("*go/ast.CommentGroup", 0)))))
 //@   ensures [C03] object-links-are-not-generated: !(kind(v) == 22 && risnil(v)) && rtype(v) == gt("ObjectPtrType") ==> m == boxed(mk("github.com/uber-go/gopatch/internal/engine.ValueReplacer", rvOf(boxed(as("*go/ast.Object", 0)))))
 //@   ensures [C03] positions-come-from-the-match: rtype(v) == gt("PosType") && kind(v) != 22 ==> m == boxed(mk("github.com/uber-go/gopatch/internal/engine.PosReplacer", c.fset, rvIface(v).val))
+//@   ensures [C03] a-value-of-any-other-type-is-regenerated-structurally-by-its-kind: rtype(v) != gt("IdentPtrType") && rtype(v) != gt("StmtSliceType") && rtype(v) != gt("ExprSliceType") && rtype(v) != gt("FieldPtrSliceType") && rtype(v) != gt("ForStmtPtrType") && rtype(v) != gt("CommentGroupPtrType") && rtype(v) != gt("ObjectPtrType") && rtype(v) != gt("PosType") && rtype(v) != global("github.com/uber-go/gopatch/internal/engine.dotsPtrType") && !(kind(v) == 22 && risnil(v)) ==> m == ret("(*engine.replacerCompiler).compileGeneric", 0)
+//@   ensures [C03] identifiers-may-be-metavariables: !(kind(v) == 22 && risnil(v)) && rtype(v) == gt("IdentPtrType") ==> m == ret("(*engine.replacerCompiler).compileIdent", 0)
 //@   ensures [C07,C08] an-elision-outside-a-list-is-recorded-for-rejection: !(kind(v) == 22 && risnil(v)) && rtype(v) == global("github.com/uber-go/gopatch/internal/engine.dotsPtrType") ==> len(c.strayDots) == old(len(c.strayDots)) + 1 && c.strayDots[old(len(c.strayDots))] == as("*github.com/uber-go/gopatch/internal/pgo.Dots", rvIface(v).val).Dots && m == boxed(mk("github.com/uber-go/gopatch/internal/engine.ZeroReplacer", rtype(v)))
 //@   ensures-assumed c.meta == nil ==> m == compiledR(c.fset, v, c.patchStart, c.patchEnd)
 
